@@ -447,6 +447,9 @@ class Exec:
             return self.w.opaque(f"{v.kind}:{v.name}")
         if v is None:
             return P.PNone
+        if isinstance(v, Bound) and v.name == "__type__":
+            # type(x) as a value: an uninterpreted function of x
+            return self.w.ufun("type_of", S.Py, S.Py)(self.to_py(v.obj))
         raise Unsupported(f"cannot inject {v!r} into Py")
 
     def to_list(self, v, line=None):
@@ -753,11 +756,26 @@ class Exec:
                         else:
                             raise Unsupported(f"module constant {name}: element form")
                     return Tup(items)
+        if self.module_tree is not None and not self.spec_mode:
+            for s_ in self.module_tree.body:
+                tgt = val = None
+                if isinstance(s_, ast.Assign) and len(s_.targets) == 1 and isinstance(s_.targets[0], ast.Name):
+                    tgt, val = s_.targets[0].id, s_.value
+                elif isinstance(s_, ast.AnnAssign) and isinstance(s_.target, ast.Name):
+                    tgt, val = s_.target.id, s_.value
+                if tgt == name and isinstance(val, ast.Dict) and not val.keys:
+                    # a module-level registry (mutable dict): arbitrary contents at call time
+                    from .contracts import sym_for
+                    return sym_for(self, f"global.{name}", "dict")
         if name in self.imports:
             imp = self.imports[name]
             if imp[0] == "module":
                 return Ref("module", imp[1])
             mod, attr = imp[1], imp[2]
+            for cand in (f"{mod}.{attr}", f"{mod.lstrip('.')}.{attr}",
+                         f"func_adl.{mod.lstrip('.')}.{attr}"):
+                if cand in self.w.libfuncs:
+                    return Ref("libfunc", cand)
             if mod == "types" and attr == "ModuleType":
                 return Ref("type", "ModuleType")
             if mod == "typing":
@@ -1390,7 +1408,7 @@ class Exec:
                     return self.call_method(args[0], meth, args[1:], kw, line, cls_override=cls)
             raise Unsupported(f"call of {f!r}")
         if isinstance(f, Bound):
-            if isinstance(f.obj, Obj):
+            if isinstance(f.obj, Obj) and f.obj.cls not in ("dict", "cdict"):
                 return self.call_method(f.obj, f.name, args, kw, line, via_super=f.via_super)
             return self.w.value_methods(self, f.obj, f.name, args, kw, line)
         if isinstance(f, Opaque):
